@@ -97,11 +97,12 @@ def sys_model(ctx):
         ctx.add_model(res)
 
 
-def sys_replay(ctx):
+def sys_replay(ctx, prefixes=None, n_quick=25, n_thorough=120):
     """TLC-simulated behaviours of Sys.tla replayed step by step on two real managers"""
     cases = []
     k = 0
-    n_per = 25 if ctx.quick() else 120
+    n_per = n_quick if ctx.quick() else n_thorough
+    prefixes = prefixes if prefixes else ["C01."]
     combos = [(d, l, f) for d in ("push", "pull") for l in ("none", "l2_4") for f in ("FALSE", "TRUE")]
     if ctx.quick():
         combos = combos[ctx.seed % 2::2]
@@ -125,7 +126,7 @@ def sys_replay(ctx):
     os.makedirs(tdir, exist_ok=True)
     ctx.must_run_go(b, "TestSys", env={"VERIF_CASES": cp, "VERIF_OUT": out, "VERIF_TRACE": tdir}, timeout=1500)
     # the same replays, seen from inside the two channel engines (hook lines), as behaviours of Chan.tla
-    gsx_chantrace(ctx, tdir, ["C01."], label="sys-replay")
+    gsx_chantrace(ctx, tdir, prefixes, label="sys-replay")
     n, verdicts = stages.judge(ctx, out, module="SysJudge")
     idx = stages.index_obs(out)
     completed = 0
@@ -136,7 +137,7 @@ def sys_replay(ctx):
         if v["rule"] == "conf":
             ctx.drift.append({"case": v["case"], "note": "final records of the two real managers differ from Sys.tla", "expA": c["expA"]["status"], "gotA": c["finalA"]["status"], "expB": c["expB"]["status"], "gotB": c["finalB"]["status"]})
             continue
-        if not v["rule"].startswith("C01."):
+        if not any(v["rule"].startswith(p) for p in prefixes):
             continue
         ctx.violation({"rule": v["rule"], "dir": v["op"], "mode": "two-node-replay"}, "%s violated in a Sys.tla behaviour replayed on two real managers (case %s)" % (v["rule"], v["case"]),
                       detail={"steps": [(s["node"], s["obs"]["stim"]["kind"], s["obs"]["stim"]["msg"]["kind"], s["obs"]["ret"]) for s in c["steps"]], "finalA": c["finalA"], "finalB": c["finalB"]})
@@ -148,8 +149,42 @@ def sys_replay(ctx):
             ctx.distinct.add(("sys", c["dir"], len(c["steps"]), c["finalB"]["status"], c["finalA"]["queued"], c["finalB"]["queued"]))
     ctx.extra["sys_behaviours_replayed"] = n
     ctx.extra["sys_behaviours_completed"] = completed
+    sys_histories(ctx, out, prefixes)
     for c in list(idx.values())[:1]:
         ctx.sample({"kind": "two-node replay", "case": c["case"], "steps": [(s["node"], s["obs"]["stim"]["kind"], s["obs"]["stim"]["msg"]["kind"]) for s in c["steps"]][:40], "finalA": c["finalA"]["status"], "finalB": c["finalB"]["status"]})
+
+
+def sys_histories(ctx, obsfile, prefixes):
+    """every manager of every two-node replay as ONE-NODE history for the manager judge: each step of the composed run is a stimulus on
+    one real manager, so Mgr!Handle (conformance) and every per-step rule of MgrJudge apply to it - on states and message sequences that
+    the two real managers produced for each other, not ones a table seeded"""
+    hist = []
+    for c in vlib.read_ndjson(obsfile):
+        if c.get("err"):
+            continue
+        for node in ("A", "B"):
+            steps = []
+            for s in c["steps"]:
+                if s["node"] != node:
+                    continue
+                o = dict(s["obs"])
+                if o["stim"]["kind"] == "reopen":
+                    o["stim"] = dict(o["stim"], rereg=True)
+                o["i"] = len(steps) + 1
+                steps.append(o)
+            if steps:
+                hist.append({"case": "%s@%s" % (c["case"], node), "self": node, "types": ["vt"], "steps": steps})
+    if not hist:
+        raise vlib.Inconclusive("no two-node history to judge")
+    hp = ctx.path("sys-histories-%d.ndjson" % len(ctx.stages))
+    vlib.write_ndjson(hp, hist)
+    n, verdicts = stages.judge(ctx, hp, module="MgrJudge")
+    idx = stages.index_obs(hp)
+    stages.classify_mgr(ctx, verdicts, prefixes, idx, "two-node history")
+    ctx.traces += n
+    ctx.evaluations += sum(len(h["steps"]) for h in hist)
+    ctx.extra["sys_node_histories_judged"] = n
+    return n
 
 
 def gsx_chantrace(ctx, tdir, prefixes, label="gsx"):
